@@ -22,3 +22,4 @@ pub mod elem;
 pub mod eval;
 pub mod fmt;
 pub mod intfns;
+pub mod lex;
